@@ -35,6 +35,20 @@ DOCS = [
     "a\nb  \nc\n\n<div>x</div>\n\n1. x\n",
     "*e* [r][] ![r] text\n",
 ]
+# documents at scale, referred to by name in cases (size thresholds and per-document budgets inside the parser)
+BIG = {
+    "@BIGDEF": "[big]: /" + "a" * 40000 + " '" + "t" * 20000 + "'\n",
+    "@BIGUSE": "[x][big]",
+    "@BIGUSE2": "![y][big] and [big]\n",
+    "@BIGLIST": "- a\n" * 3000,
+    "@BIGINLINE": "*a* `b` [c](d) " * 4000,
+}
+
+
+def _doc(x: str) -> str:
+    return BIG.get(x, x)
+
+
 OPT_VALUES = {
     "html": [True, False], "breaks": [True, False], "xhtmlOut": [True, False], "typographer": [True, False], "langPrefix": ["lang-", "", "x-"],
     "quotes": ["«»‹›", "“”‘’"], "maxNesting": [3, 20, 100], "inline_definitions": [True, False], "store_labels": [True, False],
@@ -89,9 +103,16 @@ def _case(draw):
         how = d.weighted([(5, "name"), (2, "dict"), (2, "shared_update")])
         opts = {k: d.pick(v) for k, v in OPT_VALUES.items() if d.chance(0.2)}
         ops.append(["new", i, how, d.pick(["commonmark", "js-default", "zero", "default"]), opts])
-    for _ in range(d.i(2, 22)):
+    scale = d.chance(0.1)  # histories over a few documents at scale, one shared env that holds a huge definition
+    for _ in range(d.i(2, 22) if not scale else d.i(2, 9)):
         i = d.i(0, n_inst - 1)
         k = d.weighted([(30, "call"), (12, "rules"), (12, "opt"), (4, "set_shared"), (5, "render_rule"), (5, "reset_block"), (4, "configure"), (3, "mutate_preset"), (14, "probe")])
+        if scale and k not in ("rules", "opt"):
+            if d.chance(0.65):
+                ops.append(["call", i, d.pick(["parse", "render", "parseInline", "renderInline", "parseInline", "renderInline"]), d.pick(sorted(BIG)), d.pick(["bigenv", "bigenv", "none", "fresh"])])
+            else:
+                ops.append(["probe", i, d.pick(["@BIGUSE", "@BIGUSE2", "@BIGUSE", DOCS[4]]), "bigenv"])
+            continue
         if k == "call":
             doc = d.pick(DOCS) if d.chance(0.75) else gen.any_doc_d(d)
             ops.append(["call", i, d.pick(["parse", "render", "parseInline", "renderInline"]), doc, d.pick(["none", "fresh", "env0", "env1"])])
@@ -143,6 +164,9 @@ def check(case) -> Res:
     insts: dict = {}
     recipes: dict = {}
     envs = {"env0": {}, "env1": {}}
+    if any(len(op) > 4 and op[-1] == "bigenv" or (op[0] == "probe" and op[3] == "bigenv") for op in case["ops"]):
+        envs["bigenv"] = {}
+        MarkdownIt("commonmark").parse(BIG["@BIGDEF"], envs["bigenv"])  # seeded by another instance, as a caller may
     parsed = set()
     config_after_parse = False
     defined_earlier = False
@@ -167,7 +191,8 @@ def check(case) -> Res:
                 md.configure(op[2])
         return md
 
-    def probe(i, doc, envmode, where):
+    def probe(i, doc, envmode, where, rot=0):
+        doc = _doc(doc)
         live = insts[i]
         fresh = build(recipes[i])
         if _full_options(live) != _full_options(fresh):
@@ -176,7 +201,8 @@ def check(case) -> Res:
         if live.get_active_rules() != fresh.get_active_rules():
             res.fail("active-rules-differ-from-recipe", f"{where}: {live.get_active_rules()} != {fresh.get_active_rules()}")
             return
-        for fn in ("parse", "render", "parseInline", "renderInline"):
+        fns = ["parse", "render", "parseInline", "renderInline"]
+        for fn in fns[rot % 4 :] + fns[: rot % 4]:  # whichever entry point comes first must not matter
             results = []
             for mode in ("none", "empty") if envmode == "none" else (envmode,):
                 for md in (live, fresh):
@@ -238,6 +264,7 @@ def check(case) -> Res:
                 continue
             if k == "call":
                 _, _, fn, doc, envmode = op
+                doc = _doc(doc)
                 if envmode == "none":
                     getattr(md, fn)(doc)
                 elif envmode == "fresh":
@@ -301,7 +328,7 @@ def check(case) -> Res:
                 _, _, doc, envmode = op
                 if defined_earlier and ("[r]" in doc or "[s]" in doc or "][r]" in doc):
                     probe_uses_earlier = True
-                probe(i, doc, envmode, where)
+                probe(i, doc, envmode, where, n)
                 parsed.add(i)
             if other is not None:
                 after_other = (insts[other].render(odoc), dump(insts[other].parse(odoc)), dict(insts[other].options), insts[other].get_active_rules())
